@@ -324,6 +324,15 @@ func (e *Engine) Verify(name string) (*VC, error) {
 				vc.oblige("assigns", fmt.Sprintf("%s@ret%d", srt, ri+1), r.guard, goal, "", "only declared locations of sort "+srt+" are modified")
 			}
 		}
+		for pi, p := range vc.assignPats(env, spec.Preserves) {
+			hn, ho := vc.heapOf(r.st, p.sort), vc.heapOf(f.entry, p.sort)
+			if hn == ho {
+				continue
+			}
+			sk := vc.fresh("pres_l", "Loc")
+			goal := Implies(And(p.matchCond(sk), App("<=", App("rt", sk), f.entry.Top)), Eq(App("select", hn, sk), App("select", ho, sk)))
+			vc.oblige("preserves", fmt.Sprintf("%d@ret%d", pi+1, ri+1), r.guard, goal, "", "declared-preserved locations are not modified: "+spec.Preserves[minInt(pi, len(spec.Preserves)-1)].Text)
+		}
 		cv := vc.oblige("cover", fmt.Sprintf("ret%d", ri+1), r.guard, "true", vc.posOf(r.pos), "return point is reachable under the preconditions")
 		cv.ExpectSat = true
 	}
@@ -493,4 +502,11 @@ func (vc *VC) computeUsedSpecFuncs() map[string]bool {
 		}
 	}
 	return used
+}
+
+func minInt(a, b int) int {
+	if a < b {
+		return a
+	}
+	return b
 }
